@@ -368,6 +368,92 @@ theorem C06_layout (occ : List Nat) : layout occ = occ := rfl
 theorem C06_mod_percent (style : Style) : expandPercent style (modSymbol style) = some [' ', '%', ' '] := by
   cases style <;> decide
 
+/-! ### numbers, dates, times, intervals -/
+
+/-- **Integers**: `str(i)` is read back as exactly `i` by the numeric-literal lexer, for every integer, in front of any
+    text that does not start with a digit. -/
+theorem C06_int_roundtrip (i : Int) (rest : Str) (hr : ∀ c, rest.head? = some c → isDig c = false) :
+    lexInt (valueStr d style (.int i) ++ rest) = some (i, rest) := by
+  obtain ⟨c, r, h, hne, _⟩ := natDigits_head_ne_minus i.natAbs
+  have hl := lexNat_natDigits i.natAbs rest hr
+  by_cases hi : i < 0
+  · simp only [valueStr, intStr, hi, if_true, List.cons_append, lexInt, hl, Option.map_some]
+    congr 2; omega
+  · rw [h] at hl
+    have e : ((i.natAbs : Nat) : Int) = i := Int.natAbs_of_nonneg (by omega)
+    simp only [List.cons_append] at hl
+    simp only [valueStr, intStr, hi, if_false, h, List.cons_append, lexInt, hne, hl, Option.map_some, e]
+
+/-- a rendered integer is harmless raw text: no quote character, no `%`, no backslash (it is a well-formed `raw`
+    piece of `C06_statement_structure` and passes the `%` expansion unchanged) -/
+theorem C06_int_safe (i : Int) : ∀ c ∈ valueStr d style (.int i), isQuote c = false ∧ c ≠ '%' ∧ c ≠ '\\' :=
+  intStr_safe i
+
+example : lexInt (intStr (-1203) ++ [' ', 'A']) = some (-1203, [' ', 'A']) :=
+  C06_int_roundtrip (d := .sqlite) (style := .qmark) (-1203) [' ', 'A'] (by intro c h; simp at h; subst h; decide)
+
+private theorem temporalKw_noPercent (d : Dialect) (v : TVal) : '%' ∉ temporalKw d v := by
+  cases d <;> cases v <;> simp [temporalKw, kwDate, kwTime, kwTimestamp, kwInterval]
+
+/-- **Dates, times, timestamps**: in every dialect and style the server receives `<type keyword> '<ISO text>'` with the
+    text standard-quoted … -/
+theorem C06_temporal_expand (d : Dialect) (style : Style) (v : TVal) (hv : ∀ td, v ≠ .delta td) :
+    (temporalStr d style v).bind (expandPercent style) = some (temporalKw d v ++ stdQuote (temporalText v)) := by
+  have hts : temporalStr d style v = some (temporalKw d v ++ quoteStrL style (temporalText v)) := by
+    cases v with
+    | delta td => exact absurd rfl (hv td)
+    | _ => rfl
+  rw [hts, Option.bind_some]
+  by_cases hp : style.percent = true
+  · have h1 := scanP_noPercent (temporalKw d v) (quoteStrL style (temporalText v)) (temporalKw_noPercent d v)
+    have h2 := C06_literal_expand_in_context style hp (temporalText v) []
+    simp only [List.append_nil, scanP, Option.map_some] at h2
+    simp only [expandPercent, hp, if_true, h1, h2, Option.map_some, Option.bind_some, ← lits_append, litsOnly_lits]
+  · have hp' : style.percent = false := by simpa using hp
+    have : quoteStrL style (temporalText v) = stdQuote (temporalText v) := by simp [quoteStrL, hp']
+    simp [expandPercent, hp', this]
+
+/-- … and that ISO text denotes exactly the date / time / timestamp supplied (all field values). -/
+theorem C06_date_readback (x : PDate) : parseDate (temporalText (.date x)) = some x := parseDate_dateStr x
+theorem C06_time_readback (t : PTime) : parseTime (temporalText (.time t)) = some t := parseTime_isoTime t
+theorem C06_timestamp_readback (x : PDate) (t : PTime) : parseTimestamp (temporalText (.datetime x t)) = some (x, t) :=
+  parseTimestamp_timestampStr x t
+
+/-- the unit words after an interval literal -/
+def intervalUnit (d : Dialect) (td : PDelta) : Str :=
+  if d = .mysql then (if td.us ≠ 0 then unitMyUs else unitMyS) else unitStd
+
+/-- **Intervals** (PostgreSQL, Oracle, MySQL): `INTERVAL '%s' HOUR TO SECOND` is written without `quote_str`; the text
+    `timedelta2str` produces contains only digits, `:`, `.`, `-`, so the server still receives one well-formed literal … -/
+theorem C06_interval_expand (d : Dialect) (hd : d ≠ .sqlite) (style : Style) (td : PDelta) :
+    (temporalStr d style (.delta td)).bind (expandPercent style)
+      = some (kwInterval ++ stdQuote (timedelta2str td) ++ intervalUnit d td) := by
+  have hq : '\'' ∉ timedelta2str td := fun m => (timedelta2str_safe td _ m).1 rfl
+  have hpc : '%' ∉ timedelta2str td := fun m => (timedelta2str_safe td _ m).2.1 rfl
+  have hstd : stdQuote (timedelta2str td) = '\'' :: (timedelta2str td ++ ['\'']) := by
+    simp [stdQuote, replaceChar_of_not_mem _ _ _ hq]
+  have htxt : temporalStr d style (.delta td) = some (kwInterval ++ stdQuote (timedelta2str td) ++ intervalUnit d td) := by
+    cases d <;> simp_all [temporalStr, intervalUnit]
+  rw [htxt, Option.bind_some]
+  by_cases hp : style.percent = true
+  · have hno : '%' ∉ kwInterval ++ stdQuote (timedelta2str td) ++ intervalUnit d td := by
+      rw [hstd]
+      have hu : '%' ∉ intervalUnit d td := by
+        unfold intervalUnit; split <;> (try split) <;> simp [unitMyUs, unitMyS, unitStd]
+      simp [kwInterval, hpc, hu]
+    have := scanP_noPercent _ [] hno
+    simp only [List.append_nil, scanP, Option.map_some] at this
+    simp only [expandPercent, hp, if_true, this, Option.bind_some, litsOnly_lits]
+  · have hp' : style.percent = false := by simpa using hp
+    simp [expandPercent, hp']
+
+/-- … which denotes exactly the supplied timedelta, to the microsecond, for every normalised timedelta of either sign. -/
+theorem C06_interval_readback (td : PDelta) (hs : td.secs < 86400) (hu : td.us < 1000000) :
+    parseInterval (timedelta2str td) = some td.micros := parseInterval_timedelta2str td hs hu
+
+example : parseInterval (timedelta2str ⟨-1, 86399, 999999⟩) = some (-1) :=
+  C06_interval_readback ⟨-1, 86399, 999999⟩ (by decide) (by decide)
+
 /-! ### other literal kinds -/
 
 /-- **Bytes**: `X'<hexlify(b)>'` is one blob literal denoting exactly the bytes `b`. -/
